@@ -4,6 +4,7 @@ import (
 	"fmt"
 	"os"
 	"path/filepath"
+	"strings"
 	"sync"
 	"time"
 
@@ -209,6 +210,26 @@ func judgeSecretsIn(c *Ctx, workDir, srcDB, label string, r *sched.Rng, wit map[
 		return
 	}
 	_ = os.Remove(filepath.Join(copyDir, "LOCK"))
+	// every sealed record (long-term key pair, one keyring per round) is AES-GCM under ONE key (one salt per
+	// database): a nonce (the first 12 bytes of a record) seen twice gives the XOR of two plaintexts away
+	// to anybody holding the files
+	if dump, err := world.DumpLevelDB(copyDir); err == nil {
+		seen := map[string]string{}
+		for k, v := range dump {
+			if k != "public_key" && k != "private_key" && !strings.Contains(k, "keyring") {
+				continue
+			}
+			if len(v) < 12 {
+				continue
+			}
+			c.Add("sealed_records_inspected", 1)
+			nonce := string(v[:12])
+			if other, dup := seen[nonce]; dup {
+				c.Violate("C04/nonce-reused-between-sealed-records", fmt.Sprintf("%s: records %q and %q are sealed under the same key with the same AES-GCM nonce", label, trunc(other, 24), trunc(k, 24)), wit)
+			}
+			seen[nonce] = k
+		}
+	}
 	am, err := airgapped.NewMachine(copyDir)
 	if err != nil {
 		c.Inconclusive("open copy: %v", err)
